@@ -82,6 +82,11 @@ def encode(content, error=None, version=None, mode=None, mask=None,
                                 f'Proposal: version {get_version_name(guessed_version)}')
     if error is None and version != consts.VERSION_M1:
         error = consts.ERROR_LEVEL_L
+    if version != guessed_version \
+            and consts.SYMBOL_CAPACITY[version][error] < segments.bit_length_with_overhead(version, eci):
+        # The overhead per segment (mode / character count indicator) of the
+        # requested version may be larger than the overhead of the minimal version
+        raise DataOverflowError(f'The provided data does not fit into version "{get_version_name(version)}"')
     is_micro = version < 1
     mask = normalize_mask(mask, is_micro)
     return _encode(segments, error, version, mask, eci, boost_error)
